@@ -37,6 +37,7 @@ DECLS = [
     dict(a='bool', b='bool', x=(0, 1), y=(-8, 7)),
     dict(x=(2, 13), y=(-1, 0), z=(-8, -1)),
     dict(a='bool', x=(5, 5), y=(-1, -1), z=(0, 6)),
+    dict(a='bool', k=(0, 0), y=(0, 2), z=(-2, -2)),
     # same width, different encodings / hints: renamings between them (cross-domain obligation)
     dict(x=(0, 3), y=(-4, -1), z=(0, 2)),
 ]
